@@ -262,6 +262,40 @@ class Run:
         return rc
 
 
+def collect(pid: str, repo: Repo, tier: str = "quick") -> dict:
+    """Run a property's checker on ``repo`` (possibly an in-memory overlay) without writing evidence."""
+    import importlib
+
+    mod = importlib.import_module(f"zverif.props.{pid.lower()}")
+    run = Run(pid, tier, repo)
+    try:
+        mod.check(run)
+    except AnalysisError as e:
+        run.errors.append(str(e))
+    except Exception as e:  # checker bug
+        run.errors.append(f"internal checker error: {type(e).__name__}: {e}")
+    known = {k["key"] for k in load_known_findings() if k["property"] == pid and k.get("status", "open") == "open"}
+    new = [f for f in run.findings if f.key not in known]
+    return dict(pid=pid, new=[dict(rule=f.rule, key=f.key, message=f.message) for f in new], known=[f.key for f in run.findings if f.key in known],
+                errors=list(run.errors), obligations=len(run.obligations))
+
+
+def _thorough_extras(run: "Run") -> None:
+    """Thorough tier: validate the checker itself on the in-memory variant corpus (both directions)
+    and on the committed seeded changes whose patch still applies textually."""
+    from . import selftest
+
+    res = selftest.run([run.pid], jobs=int(os.environ.get("ZVERIF_JOBS", "16")), root=str(run.repo.root))
+    ok = [r for r in res if r["status"] == "ok"]
+    failed = [r for r in res if r["status"] == "FAILED"]
+    run.units["selftest"] = dict(variants=len(res), ok=len(ok), failed=[r["id"] for r in failed], skipped=[r["id"] for r in res if r["status"] == "skipped"],
+                                 detail=[dict(id=r["id"], expect=r.get("expect"), status=r["status"], rules=r.get("rules")) for r in res])
+    for r in ok:
+        run.proved("selftest", f"variant {r['id']} ({r.get('expect')}): checker answered as expected {r.get('rules')}")
+    for r in failed:
+        run.errors.append(f"self-test: variant {r['id']} (expected {r.get('expect')}) was answered with rules {r.get('rules')} -- the checker is not trustworthy for this rule")
+
+
 def load_known_findings() -> list[dict]:
     p = VERIF / "known_findings.json"
     if not p.exists():
@@ -275,6 +309,8 @@ def run_check(pid: str, tier: str, fn: Callable[[Run], None], repo: Optional[Rep
     run = Run(pid, tier, repo)
     try:
         fn(run)
+        if tier == "thorough":
+            _thorough_extras(run)
     except AnalysisError as e:
         run.errors.append(f"{e}")
     except Exception as e:  # a checker bug is analysis-broken, never a violation
